@@ -122,8 +122,32 @@ Sweeps == <<
   <<"tt50.tas", 2048>>,
   <<"hs60.hdg", 2048>>, <<"hs60.ias", 2048>>, <<"hs60.mach", 2048>>, <<"hs60.baro", 1024>>,
   <<"hs60.ivv", 1024>>,
-  <<"addr", 576>>, <<"l05", 1560>>
+  <<"addr", 576>>, <<"l05", 1560>>,
+  (* envelope rims (FieldCodec!Rims): every code combination on the inner  *)
+  (* boundary of a two-field constraint, two seeded fills each; the last   *)
+  (* accepted and the one-before-last value of the one-field constraints   *)
+  <<"tt50.rim.gstas", 1252>>, <<"tt50.rim.rollrate", 3186>>, <<"tt50.rim.single", 128>>,
+  <<"hs60.rim.iasmach", 1246>>, <<"hs60.rim.single", 192>>, <<"vi40.rim", 32>>
 >>
+
+(* |GS - TAS| = 200 kt (100 codes) and 198 kt, both directions, inside the  *)
+(* other bounds (GS <= 300, TAS in 40..250): 161 + 151 + 162 + 152 pairs    *)
+GsTasRim(j) ==
+  IF j < 161 THEN [tas |-> 40 + j, gs |-> 140 + j]
+  ELSE IF j < 312 THEN [gs |-> j - 161, tas |-> j - 161 + 100]
+  ELSE IF j < 474 THEN [tas |-> 40 + (j - 312), gs |-> 40 + (j - 312) + 99]
+  ELSE [gs |-> j - 474, tas |-> j - 474 + 99]
+(* roll * rate >= 0: the product is zero.  1024 rates with roll 0, then the *)
+(* 569 in-envelope rolls with rate 0                                        *)
+RollRateRim(j) ==
+  IF j < 1024 THEN [rsg |-> 0, roll |-> 0, trsg |-> j \div 512, rate |-> j % 512]
+  ELSE LET e == Enc9((j - 1024) - RollMax50) IN [rsg |-> e.sg, roll |-> e.m, trsg |-> 0, rate |-> 0]
+(* IAS/Mach cross-checks: 99 + 250 + 125 + 149 pairs                        *)
+IasMachRim(j) ==
+  IF j < 99 THEN [ias |-> 250, mach |-> 1 + j]
+  ELSE IF j < 349 THEN [ias |-> 251 + (j - 99), mach |-> 100]
+  ELSE IF j < 474 THEN [ias |-> 150, mach |-> 126 + (j - 349)]
+  ELSE [ias |-> 1 + (j - 474), mach |-> 125]
 
 Make(name, a, i) ==
   CASE name = "ap05.alt.baro" ->
@@ -217,6 +241,53 @@ Make(name, a, i) ==
                                  ELSE 1 + R(a, i, 40, 500)] @@ Fill60(a, i)>>
     [] name = "hs60.baro" -> <<"hs60", [bs |-> 1, bsg |-> i \div 512, baro |-> i % 512] @@ Fill60(a, i)>>
     [] name = "hs60.ivv" -> <<"hs60", [vs |-> 1, vsg |-> i \div 512, ivv |-> i % 512] @@ Fill60(a, i)>>
+    [] name = "tt50.rim.gstas" ->
+         LET p == GsTasRim(i \div 2) IN
+         <<"tt50", [gss |-> 1, gs |-> p.gs, tass |-> 1, tas |-> p.tas] @@ Fill50(a, i)>>
+    [] name = "tt50.rim.rollrate" ->
+         LET p == RollRateRim(i \div 2) IN
+         <<"tt50", [rs |-> 1, rsg |-> p.rsg, roll |-> p.roll, trs |-> 1, trsg |-> p.trsg, rate |-> p.rate]
+                   @@ Fill50(a, i)>>
+    [] name = "tt50.rim.single" ->
+         LET q == i % 16
+             rv == <<RollMax50, -RollMax50, RollMax50 - 1, -(RollMax50 - 1)>>[1 + (q % 4)]
+             e == Enc9(rv)
+             gv == <<GsMax50, GsMax50 - 1>>[1 + (q % 2)]
+             tv == <<TasMin50, TasMin50 + 1, TasMax50 - 1, TasMax50>>[1 + (q % 4)]
+         IN CASE q < 4 -> <<"tt50", [rs |-> 1, rsg |-> e.sg, roll |-> e.m, trs |-> 0, trsg |-> 0, rate |-> 0]
+                                    @@ Fill50(a, i)>>
+              [] q \in 4..7 -> <<"tt50", [rs |-> 1, rsg |-> e.sg, roll |-> e.m, trs |-> 1, trsg |-> e.sg,
+                                          rate |-> IF e.sg = 0 THEN R(a, i, 40, 100) ELSE Neg9(R(a, i, 40, 99))]
+                                         @@ Fill50(a, i)>>
+              [] q \in 8..9 -> <<"tt50", [gss |-> 1, gs |-> gv, tass |-> 0, tas |-> 0] @@ Fill50(a, i)>>
+              [] q \in 10..11 -> <<"tt50", [gss |-> 1, gs |-> gv, tass |-> 1, tas |-> 200 + R(a, i, 40, 51)]
+                                           @@ Fill50(a, i)>>
+              [] q \in 12..15 -> <<"tt50", [tass |-> 1, tas |-> tv, gss |-> 1,
+                                            gs |-> Clip(tv - 20 + R(a, i, 40, 41), 0, 300)] @@ Fill50(a, i)>>
+    [] name = "hs60.rim.iasmach" ->
+         LET p == IasMachRim(i \div 2) IN
+         <<"hs60", [iss |-> 1, ias |-> p.ias, mas |-> 1, mach |-> p.mach] @@ Fill60(a, i)>>
+    [] name = "hs60.rim.single" ->
+         LET q == i % 24
+             iv == <<1, 2, IasMax60 - 1, IasMax60>>[1 + (q % 4)]
+             mv == <<1, 2, MachMax60 - 1, MachMax60>>[1 + (q % 4)]
+             e == Enc9(<<VRateMax60, -VRateMax60, VRateMax60 - 1, -(VRateMax60 - 1)>>[1 + (q % 4)])
+         IN CASE q < 4 -> <<"hs60", [iss |-> 1, ias |-> iv, mas |-> 0, mach |-> 0] @@ Fill60(a, i)>>
+              [] q \in 4..7 -> <<"hs60", [iss |-> 1, ias |-> iv, mas |-> 1,
+                                          mach |-> IF iv < 150 THEN 1 + R(a, i, 40, 125) ELSE 100 + R(a, i, 40, 151)]
+                                         @@ Fill60(a, i)>>
+              [] q \in 8..11 -> <<"hs60", [mas |-> 1, mach |-> mv, iss |-> 0, ias |-> 0] @@ Fill60(a, i)>>
+              [] q \in 12..15 -> <<"hs60", [mas |-> 1, mach |-> mv, iss |-> 1,
+                                            ias |-> IF mv < 100 THEN 1 + R(a, i, 40, 250) ELSE 150 + R(a, i, 40, 351)]
+                                           @@ Fill60(a, i)>>
+              [] q \in 16..19 -> <<"hs60", [bs |-> 1, bsg |-> e.sg, baro |-> e.m] @@ Fill60(a, i)>>
+              [] q \in 20..23 -> <<"hs60", [vs |-> 1, vsg |-> e.sg, ivv |-> e.m] @@ Fill60(a, i)>>
+    [] name = "vi40.rim" ->
+         LET q == i % 8
+             nv == <<Alt40Max, Alt40Max - 6>>[1 + (q % 2)]       \* 44992 ft and 44896 ft, both on the grid
+         IN IF (q \div 2) % 2 = 0
+            THEN <<"vi40", [df |-> 20 + q \div 4, ms |-> 1, malt |-> nv] @@ Fill40(a, i)>>
+            ELSE <<"vi40", [df |-> 20 + q \div 4, fst |-> 1, falt |-> nv] @@ Fill40(a, i)>>
     [] name = "addr" ->
          LET w == i \div 64  ad == AddrAt(a, i, i % 64) IN
          (CASE w = 0 -> <<"aa11", [ca |-> 4 + R(a, i, 1, 4), aa |-> ad]>>
@@ -250,10 +321,17 @@ CrossAt(j) ==
 
 Vector(kc, name) ==
   [k |-> kc[1], c |-> kc[2], f |-> Fields(kc[1], kc[2]), ov |-> Overlay(kc[1], kc[2]),
-   obs |-> Obs(kc[1], kc[2]), n |-> Len(Applicable(kc[1], kc[2])), s |-> name]
+   obs |-> Obs(kc[1], kc[2]), n |-> Len(Applicable(kc[1], kc[2])), s |-> name,
+   rim |-> Rims(kc[1], kc[2])]
 
+(* a rim sweep that leaves the envelope would silently carry no obligation *)
+IsRimSweep(name) == name \in {"tt50.rim.gstas", "tt50.rim.rollrate", "tt50.rim.single",
+                              "hs60.rim.iasmach", "hs60.rim.single", "vi40.rim"}
+InEnvelope(k, c) == CASE k = "tt50" -> Plausible50(c) [] k = "hs60" -> Plausible60(c)
+                      [] k = "vi40" -> Plausible40(c) [] OTHER -> TRUE
 Emit(kc, name) ==
   /\ Assert(WellFormed(kc[1], kc[2]), <<"ill-formed vector", name, kc>>)
+  /\ Assert(IsRimSweep(name) => InEnvelope(kc[1], kc[2]), <<"rim vector outside its envelope", name, kc>>)
   /\ PrintT(ToJson(Vector(kc, name)))
 
 VARIABLES sw, rep, i
